@@ -38,14 +38,6 @@ Proof.
   destruct H as (_ & H2 & _ & _ & _ & _ & _ & H7 & _). cbn [is_queued is_gone b2n] in *. auto.
 Qed.
 
-Lemma disp_done e e' ev q :
-  disp_view e e' ev q -> panicked e' = None ->
-  exists m effs, handle_event (mx e) ev = Done m effs /\ mx e' = m /\ chq e' = q /\ sent e' = sent e ++ emits effs /\ dead e' = dead e.
-Proof.
-  unfold disp_view. destruct (handle_event (mx e) ev) as [m effs|err effs|s]; [|contradiction|congruence].
-  intros (H1 & H2 & H3 & H4) _. exists m, effs. auto.
-Qed.
-
 Lemma sys_of_coreM X X' Y L L' fs :
   WF X' -> WF Y -> sent X' = sent X ++ fs -> CoreM (mx X') (chq X') Y (L ++ fs) L' -> Sys X' Y (L ++ new_frames X X') L'.
 Proof. intros Hw Hy Hs HC. rewrite (new_frames_app _ _ _ Hs). split; [exact Hw|split; [exact Hy|exact HC]]. Qed.
